@@ -7,7 +7,7 @@ suppression on restore, and error discipline of the restore path (torn tail).
 import ast
 
 from ..cfg import CFG
-from ..model import walk_shallow, call_name, is_self_attr, dotted_name, norm_stmt, parent
+from ..model import walk_shallow, call_name, is_self_attr, dotted_name, norm_stmt, parent, ancestors
 from ..util import (has_call, find_calls, nodes_where, escape_path, node_ast_for_effects, guards_of,
                     assigned_value, const_str, unparse, kw, arg_or_kw, enclosing_stmt, control_ancestors, call_tail)
 from .. import mutate as M
@@ -19,6 +19,7 @@ EXPLANATION = ("Static rules over the transaction-log writer (DiskSink), the tas
                "open/close, T4 payload materialised before yield, every task kind guarded by its restored-id set, "
                "preamble suppressed on restore, raw log lines decoded under error handling.")
 EXPLANATION += ' R7: nothing on the restore chain is memoised; a log without an experiment row is not a mismatch and gets one appended.'
+EXPLANATION += ' R9: only DiskSink.write enters the sink context, once per batch (each record reaches a closed file / complete gzip member before the next is computed).'
 EXPLANATION += ' R5 also: an empty file is a fresh start. R8: the encoder drops nothing, _max_chunker partitions the remaining tasks (cardinality domain), an evaluation recorded with no rows is remembered (known finding).'
 
 SINKS = "coba/pipes/sinks.py"
@@ -38,6 +39,11 @@ def run(ctx):
     r6_torn_tail(ctx)
     r7_restore_reads_current_file(ctx)
     r8_nothing_dropped(ctx)
+    r9_sink_context_owner(ctx)
+    # "interrupted at any moment" includes Ctrl-C followed by a re-run in the same process: the environment cache of a chunked experiment
+    # must not be left truncated-but-complete by a KeyboardInterrupt raised while its source is read
+    from . import c04
+    c04.r6_replay_buffer(ctx, rule="C02.R10", base=True)
 
 
 # ------------------------------------------------------------------------------------------ R1
@@ -526,7 +532,56 @@ def _memoise_from_save(tree):
     fn.decorator_list.append(ast.parse("lru_cache(maxsize=4)", mode="eval").body)
 
 
+def _except_exception(tree):
+    from ..mutate import find_def
+    fn = find_def(tree, "Cache.filter")
+    hs = [h for h in ast.walk(fn) if isinstance(h, ast.ExceptHandler) and h.type is None]
+    if not hs:
+        raise M.TargetMissing("bare except in Cache.filter")
+    hs[0].type = ast.Name(id="Exception", ctx=ast.Load())
+
+
+def r9_sink_context_owner(ctx, rule="C02.R9"):
+    """DiskSink keeps its file open while its context is entered (a nesting count): the log is closed after every batch -- a complete gzip
+    member per record -- only while nobody else holds that context around the writes."""
+    ctx.rule(rule, "who-may-enter: the context of a sink (DiskSink holds its file open while entered) is entered only by DiskSink.write itself, once per batch inside the "
+                   "batch loop with the batch fetched outside it; no pipeline line or experiment code wraps sink.write in `with sink`")
+    n = 0
+    for rel, mod in sorted(ctx.model.modules.items()):
+        if not rel.startswith(("coba/pipes/", "coba/experiments/", "coba/results/", "coba/context/")):
+            continue
+        for fn in [x for x in ast.walk(mod.tree) if isinstance(x, (ast.FunctionDef, ast.AsyncFunctionDef))]:
+            from ..model import qualname
+            qual = qualname(fn)
+            sinkish = set()
+            for st in walk_shallow(fn):
+                if isinstance(st, ast.Assign) and isinstance(st.value, ast.Subscript) and "_pipes" in unparse(st.value.value):
+                    sinkish |= {t.id for t in st.targets if isinstance(t, ast.Name)}
+            entered = []
+            for x in walk_shallow(fn):
+                if isinstance(x, (ast.With, ast.AsyncWith)):
+                    entered += [(i.context_expr, x) for i in x.items]
+                if isinstance(x, ast.Call) and isinstance(x.func, ast.Attribute) and x.func.attr == "__enter__":
+                    entered.append((x.func.value, x))
+            for e, where in entered:
+                t = unparse(e)
+                is_self_sink = t == "self" and qual.split(".")[0].endswith("Sink")
+                if not (is_self_sink or "sink" in t.lower() or (isinstance(e, ast.Name) and e.id in sinkish)):
+                    continue
+                n += 1
+                ok = is_self_sink and qual == "DiskSink.write"
+                if ok:
+                    # once per batch: inside the loop, the batch itself obtained outside the with
+                    loops = [a for a in ancestors(where) if isinstance(a, (ast.While, ast.For))]
+                    inner_calls = [c for c in ast.walk(where) if isinstance(c, ast.Call) and call_tail(c) in ("_get_batch", "islice", "next")]
+                    ok = bool(loops) and not inner_calls
+                ctx.ob(rule, rel, qual, where, "a sink's context is entered only by DiskSink.write, once per batch", ok)
+    ctx.floor(rule, "places that enter a sink's context", n, 1)
+
+
 CONTROLS = [
+    ("Cache resets on Exception only", "coba/pipes/filters.py", _except_exception, "C02.R10"),
+    ("SourceSink keeps the sink entered for the whole run", "coba/pipes/lines.py", M.replace_stmt("SourceSink.run", M.text_has("sink.write(item)"), "with sink:\n    sink.write(item)"), "C02.R9"),
     ("empty result file is restored from", EXP, M.replace_expr("Experiment.run", "result_file and Path(result_file).exists() and (Path(result_file).stat().st_size > 0)", "result_file and Path(result_file).exists()"), "C02.R5"),
     ("encoder skips evaluations it believes restored", RES, M.insert_before("TransactionEncode.filter", lambda st: isinstance(st, ast.Assign) and "defaultdict" in ast.unparse(st.value),
                                                                            "if self._restored and tuple(item[1][:2]) in set(): continue"), "C02.R8"),
